@@ -413,6 +413,14 @@ func validateWildcardDomain(name string) (string, string, error) {
 // If one does not pass, it is returned in the string argument.
 func validateNames(b *backend, data *inputBundle, names []string) string {
 	for _, name := range names {
+		// An empty name is never valid. It must be refused with a non-empty
+		// marker: the "return name" statements below would return "" for it,
+		// which callers read as "every name is allowed", leaving the names
+		// after it (e.g. further SANs of a CSR) unchecked.
+		if name == "" {
+			return `""`
+		}
+
 		// Previously, reducedName was called sanitizedName but this made
 		// little sense under the previous interpretation of wildcards,
 		// leading to two bugs in this implementation. We presently call it
